@@ -15,7 +15,7 @@ Hypothesis content_isman : forall p, content p <> [] -> isman p = true.
 Record J (s : ostore) : Prop := mkJ {
   j_inv : Inv content (o_graph s);
   (* every stored manifest is a root of index.json *)
-  j_root : forall p, isman p = true -> In p (o_blobs s) -> In p (o_bydigest s) \/ In p (o_tagged s);
+  j_root : forall p, isman p = true -> In p (o_blobs s) -> In p (o_bydigest s);
   (* graph manifests = stored manifests *)
   j_graph_stored : forall p, In p (g_nodes (o_graph s)) -> isman p = true -> In p (o_blobs s);
   j_stored_graph : forall p, In p (o_blobs s) -> isman p = true -> In p (g_nodes (o_graph s))
@@ -57,20 +57,21 @@ Proof.
     constructor; simpl.
     + apply index_Inv, H1.
     + intros p Hm [<-|Hb].
-      * rewrite Hm. left. apply In_sadd. auto.
-      * destruct (H2 p Hm Hb) as [H|H]; auto. left.
-        destruct (isman n); auto. apply In_sadd. auto.
+      * rewrite Hm. apply In_sadd. auto.
+      * specialize (H2 p Hm Hb). destruct (isman n); auto. apply In_sadd. auto.
     + intros p Hp Hm. apply In_sadd in Hp. destruct Hp as [->|Hp]; [left; reflexivity | right; apply H3; auto].
     + intros p [<-|Hb] Hm; apply In_sadd; [left; reflexivity | right; apply H4; auto].
   - (* Tag *)
     destruct (smem n (o_blobs s)) eqn:M; simpl; [|constructor; auto].
     constructor; simpl; auto.
-    intros p Hm Hb. destruct (H2 p Hm Hb) as [H|H]; [left|right]; apply In_sadd; auto.
+    intros p Hm Hb. apply In_sadd. auto.
+  - (* Untag *)
+    constructor; simpl; auto.
   - (* Delete *)
     constructor; simpl.
     + apply remove_Inv, H1.
     + intros p Hm Hb. apply In_sdel in Hb. destruct Hb as [Hne Hb].
-      destruct (H2 p Hm Hb) as [H|H]; [left|right]; apply In_sdel; auto.
+      apply In_sdel. auto.
     + intros p Hp Hm. apply remove_ord_nodes in Hp. destruct Hp as [Hne Hp].
       apply In_sdel. auto.
     + intros p Hb Hm. apply In_sdel in Hb. destruct Hb as [Hne Hb].
@@ -83,8 +84,7 @@ Proof.
     + pose proof (load_Inv content (o_sok isman s) fuel (o_tagged s ++ kept)) as HI.
       rewrite E in HI. exact HI.
     + intros p Hm Hp. apply filter_In in Hp. destruct Hp as [Hp Hx].
-      destruct (H2 p Hm Hp) as [H|H]; auto.
-      left. apply in_app_iff. right. apply filter_In. auto.
+      apply in_app_iff. right. apply filter_In. auto.
     + intros p Hp Hm. apply filter_In. split; [apply Ha; auto | apply exists_node_In; auto].
     + intros p Hp Hm. apply filter_In in Hp. destruct Hp as [_ Hx]. apply exists_node_In, Hx.
   - (* Reopen *)
@@ -94,7 +94,7 @@ Proof.
     constructor; simpl; auto.
     + pose proof (load_Inv content (o_sok isman s) fuel (o_tagged s ++ o_bydigest s)) as HI.
       rewrite E in HI. exact HI.
-    + intros p Hp Hm. apply Hb; auto. apply in_app_iff. destruct (H2 p Hm Hp); auto.
+    + intros p Hp Hm. apply Hb; auto. apply in_app_iff. auto.
 Qed.
 
 Lemma orun_J fuel ops : forall s, J s -> J (fst (orun true content isman fuel s ops)).
